@@ -408,6 +408,7 @@ impl World {
 		}
 		let removed = self.chain.reorg(depth, readmit);
 		self.oracle.last_fee.clear();
+		self.oracle.last_bump_rate.clear();
 		self.out.bump(&format!("fault:reorg_depth_{}", depth.min(7)));
 		if !removed.is_empty() {
 			self.out.bump("probe:reorg_removed_transactions");
